@@ -58,9 +58,11 @@ theorem parseSlider_ok (curve : List CP) (x y : Int) (sound : Nat) (ps rs : Str)
   | ok reps =>
     rw [hreps] at h
     simp only [] at h ⊢
-    by_cases h9 : reps > 9000
+    by_cases h9 : reps > repeatCap
     · rw [if_pos h9] at h; cases h
     · rw [if_neg h9] at h ⊢
+      have hcap : repeatCap = 9000 := rfl
+      rw [hcap] at h9
       unfold repeatsOf at h ⊢
       by_cases hu : reps - 1 < -2147483648
       · rw [if_pos hu] at h; cases h
